@@ -438,12 +438,30 @@ func (g *coreGen) matchExpr(d int) Node {
 	cases := make([]any, 0, ncases)
 	binds := false
 	impure := false
+	// an array held by a variable against an array pattern of names of (probably) its length: the names hold
+	// the elements' values, assigning to them leaves the array as it was
+	arrSubject := !g.inFn && g.r.Intn(5) == 0
+	if arrSubject {
+		subj, direct = cn("var", "n", "r1"), true
+	}
 	for i := 0; i < ncases; i++ {
 		var names []string
 		npats := 1 + g.r.Intn(2)
 		pats := make([]any, npats)
 		for j := range pats {
 			pats[j] = map[string]any(g.pattern(1, &names))
+		}
+		if arrSubject && i == 0 {
+			names = nil
+			items := []any{}
+			for k := 0; k < 3+g.r.Intn(2)*g.r.Intn(2); k++ {
+				g.nmatch++
+				n := fmt.Sprintf("m%d", g.nmatch)
+				names = append(names, n)
+				items = append(items, map[string]any(cn("pid", "n", n)))
+			}
+			pats = []any{map[string]any(cn("parr", "items", items))}
+			npats = 1
 		}
 		// a name bound by only one of several alternatives is unset when another one matched: read only
 		// the names of a single-alternative case
@@ -457,7 +475,7 @@ func (g *coreGen) matchExpr(d int) Node {
 		saved := g.bound
 		g.bound = append(append([]string{}, g.bound...), readable...)
 		var c Node
-		if d > 0 && g.r.Intn(3) == 0 {
+		if (d > 0 && g.r.Intn(3) == 0) || (arrSubject && i == 0) {
 			body := g.block(d-1, 1+g.r.Intn(2))
 			if len(readable) > 0 {
 				args := []any{map[string]any(cn("str", "v", "m"))}
@@ -465,7 +483,7 @@ func (g *coreGen) matchExpr(d int) Node {
 					args = append(args, map[string]any(cn("var", "n", n)))
 				}
 				pre := []any{map[string]any(cn("print", "args", args))}
-				if g.r.Intn(2) == 0 {
+				if g.r.Intn(2) == 0 || arrSubject {
 					// assigning to a bound name changes neither the subject nor anything else
 					n := readable[g.r.Intn(len(readable))]
 					if g.r.Intn(2) == 0 {
